@@ -172,6 +172,14 @@ def check_rejects_invalid(ctx, rep, setter):
         "an argument that is neither a str nor a dict": lambda s_: str_fact(s_) is True or dict_fact(s_) is True or val(s_, _is_either) is True,
         "a str that is not a preset name": lambda s_: str_fact(s_) is False or val(s_, in_presets) is True,
     }
+    # G2b: ... and every normal return for a dict (or a str) argument has bound the table on that very path: an early return
+    # that keeps the old table (e.g. "nothing seems to change") makes set(t); get() differ from t
+    tv = sorted({n for (_m, n) in Effects(ctx).table_vars()[1]} | set(setter.declared_global))
+    unbound = [s_ for s_, _v in fr.returns if (dict_fact(s_) is True or str_fact(s_) is True) and not any(("$global:" + n) in s_.env for n in tv)]
+    rep.ob("G2", not unbound, setter.node, setter, construct="normal returns of the setter (%d path(s))" % len(fr.returns),
+           how="each has rebound the table variable %s on its own path" % sorted(tv),
+           witness=None if not unbound else "the setter can return normally for a valid argument without installing it (%d path(s)): "
+           "get_semantic_constraints() then differs from what was set" % len(unbound), nontrivial=True, key="bind/every-return")
     rets = [r for r in own_nodes(setter.node) if isinstance(r, ast.Return)]
     for what, contradicted in scen.items():
         bad = [s_ for s_, _v in fr.returns if not contradicted(s_)]
